@@ -4,7 +4,12 @@
 #[macro_use]
 pub mod sym;
 pub mod serde_drv;
+pub mod verif_types;
+pub mod mkey;
+pub mod refmodel;
 pub mod fam_n;
+pub mod fam_a;
+pub mod fam_u;
 
 #[cfg(not(kani))]
 pub mod registry;
